@@ -44,6 +44,7 @@ def run(chk, repo):
     chk.attempt(y9, chk, repo)
     chk.rule("C12-Y10", "attributes attached while the tree is assembled (open_image, io.open, Group/Variable construction outside the record pipelines) are plain Python values, not NumPy objects", 2)
     chk.attempt(y10, chk, repo)
+    chk.attempt(group_attrs_as_given, chk, repo)
     chk.count("functions", 6)
 
 
@@ -350,3 +351,35 @@ def y8(chk, repo):
 
     for pipe, v in P.run().items():
         walk(v, "", pipe)
+
+
+def group_attrs_as_given(chk, repo):
+    """C12-Y11: hierarchy.Group evaluated by the checker's interpreter (its own __post_init__ / __setitem__): the attributes of a group
+    are the mapping its creator passed - also when `data` holds something that is neither a group nor a variable (summary sections the
+    package does not know are handed through as raw dicts, the cache decoder keeps entries of unknown type).  Such an entry never turns
+    into an attribute: a dict under attrs surfaces in the tree as an attribute that is not a scalar / string / list."""
+    from collections import OrderedDict
+    from ..repeval import from_shape, Undecided
+    from ..shapes import Const, DictS, Interp, ListLit, NonTermination, Obj, ShapeError, _Raise
+    chk.rule("C12-Y11", "a group's attributes are what its creator passed: entries of `data` that are not nodes never become attributes", 2)
+    hm = repo.module("ceos_alos2.hierarchy")
+    where = f"{hm.relpath}:Group"
+    I = Interp(repo)
+    I.real_hierarchy = True
+    sc = I.module_scope(hm)
+    try:
+        G, V = I.lookup("Group", sc), I.lookup("Variable", sc)
+        var = I.call(V, [], OrderedDict(dims=ListLit([Const("rows")]), data=ListLit([Const(1)]), attrs=DictS()))
+        raw = DictS(OrderedDict(ProcessingNote=Const("reprocessed")))
+        g = I.call(G, [], OrderedDict(path=Const("summary"), url=Const(None), data=DictS(OrderedDict([("v", var), ("exi", raw)])), attrs=DictS(OrderedDict(a=Const(1)))))
+        attrs = from_shape(g.fields["attrs"])
+        chk.require(attrs == {"a": 1}, "C12-Y11", where, "constructed with a raw dict among its entries: attrs stay {'a': 1}",
+                    f"Group(path='summary', data={{'v': <variable>, 'exi': {{...}}}}, attrs={{'a': 1}}) has the attributes {str(attrs)[:120]}: an entry of `data` that is no node became an attribute - an internal dict surfaces in the tree",
+                    key="group:attrs:constructor")
+        g2 = I.call(G, [], OrderedDict(path=Const("/"), url=Const(None), data=DictS(), attrs=DictS(OrderedDict(a=Const(1)))))
+        I.call(I.getattr(g2, "__setitem__"), [Const("exi"), raw], {})
+        attrs2 = from_shape(g2.fields["attrs"])
+        chk.require(attrs2 == {"a": 1}, "C12-Y11", where, "a raw dict assigned as an entry: attrs stay {'a': 1}",
+                    f"after group['exi'] = {{...}} the group has the attributes {str(attrs2)[:120]}", key="group:attrs:setitem")
+    except (ShapeError, NonTermination, RecursionError, _Raise, Undecided, KeyError) as e:
+        raise AnalysisError(f"{where}: construction cannot be evaluated on model entries: {str(e)[:160]}")
